@@ -105,6 +105,21 @@ CHECKS = {
             "every further push sequence like the original; one inferInstance obligation per serde-enabled composition. Scripts "
             "serialise the real value with serde_json, compare its tree with the model's (struct nodes as multisets of field "
             "values) and drive both copies through the same continuation comparing indices, reads and used bytes.", "§6 C16"),
+    "C17": ("Lean proof (growth-vector model of every structural region: reserve/merge leave exactly the room the pushes consume; "
+            "doubling bound) + capacity/allocator correspondence",
+            "C17.no_growth_after_reserve_items / _regions / _merge / _merge_capacity: for every vector-backed structural composition "
+            "(inferInstance per entry) pushing exactly the announced contents changes no capacity reported by heap_size, from empty "
+            "or populated regions; C17.log_growth: each capacity changes at most log2(final)+1 times under any doubling policy; the "
+            "unrepaired SliceRegion::merge_regions is shown (by evaluation) to violate the law the repaired one satisfies. PARTIAL by "
+            "nature: the allocator, RawVec's policy and the optimiser are runtime facts; the harness's counting allocator and the "
+            "capacities reported by the real crate cover them by sampling.", "§6 C17"),
+    "C18": ("Lean proof (capacity invariant over the whole API; used-bytes monotonicity; structural accounting lemmas) + differential "
+            "correspondence with shadow lower bound",
+            "C18.used_le_cap, push_monotone, clear_caps, clear_used(_default), every_child_*, lower_bound: for every region reachable "
+            "through push/clear/reserve/merge/clone the reported pairs have used <= capacity, used bytes never decrease on push, clear "
+            "keeps capacities and forgets payload, composites report the concatenation of their children, and a content-defined "
+            "`stored` lower bound holds (exact for owned/string/slice storages). Scripts check the real crate's pairs against a "
+            "lower bound computed from the shadow and against the model's used bytes.", "§6 C18"),
 }
 
 
